@@ -19,7 +19,7 @@ Proof.
   destruct (unify_inv _ _ _ _ _ Ux Uy Hu) as (bx & by_ & Hbx & Hby & Hag & Hm & Hrd).
   apply binds_a_sl_b in Hbx as (a & s & b & -> & Hs & ->). rewrite binds_var in Hby. inversion Hby; subst by_; clear Hby.
   destruct (Hm v_b b y eq_refl eq_refl) as (_ & _ & Hmat).
-  rewrite is_modifier_char. cbn [bind modifierb].
+  step.
   destruct (cat_eqb a b) eqn:E.
   - eexists. split; [reflexivity|]. split; [|reflexivity].
     apply cat_eqb_eq in E. apply (J_fa _ _ _ a s b); try assumption; try reflexivity. split; reflexivity. left. now split.
@@ -34,22 +34,22 @@ Ltac lab := split; reflexivity.
 
 Lemma ba_good : good backward_application.
 Proof.
-  intros x y Wx Wy Ux Uy. unfold backward_application. cbn [bind].
+  intros x y Wx Wy Ux Uy. unfold backward_application.
   change [83;91;100;99;108;93] with (show c_S_dcl). change [83;91;101;109;93;92;83;91;101;109;93] with (show c_Sem_Sem).
-  rewrite if_and. cbn [bind]. destruct (eq_str x (show c_S_dcl) && eq_str y (show c_Sem_Sem)) eqn:E.
-  - right. apply andb_true_iff in E as [E1 E2]. apply eq_str_wf in E1, E2; try assumption; try reflexivity.
-    done_some. apply J_ba_em; try assumption; try reflexivity. lab.
-  - destruct (unify_total lit_1 lit_2 x y Ux Uy) as [[st|] Hu]; rewrite Hu; cbn [bind]; [|now left]. right.
-    destruct (unify_inv _ _ _ _ _ Ux Uy Hu) as (bx & by_ & Hbx & Hby & Hag & Hm & Hrd).
-    rewrite binds_var in Hbx. inversion Hbx; subst bx; clear Hbx.
-    apply binds_a_bs_b in Hby as (a & s & b & -> & Hs & ->).
-    destruct (Hm v_b x b eq_refl eq_refl) as (_ & _ & Hmat).
-    rewrite is_modifier_char. cbn [bind modifierb].
-    destruct (cat_eqb a b) eqn:Eab.
-    + done_some. apply cat_eqb_eq in Eab. apply (J_ba _ _ _ a s b); try assumption; try reflexivity. lab. left. now split.
-    + destruct (Hrd v_a a eq_refl) as (c & Hc & Hi). rewrite Hc. cbn [bind]. done_some.
-      apply (J_ba _ _ _ a s b); try assumption; try reflexivity. lab. right. split; [|exact Hi].
-      intros ->. now rewrite cat_eqb_refl in Eab.
+  (* the listed special case is asked first; every other path is the unification *)
+  destruct (eq_str x (show c_S_dcl)) eqn:E1; [destruct (eq_str y (show c_Sem_Sem)) eqn:E2|].
+  1: { right. apply eq_str_wf in E1, E2; try assumption; try reflexivity.
+       done_some. apply J_ba_em; try assumption; try reflexivity. lab. }
+  all: destruct (unify_total lit_1 lit_2 x y Ux Uy) as [[st|] Hu]; rewrite Hu; cbn [bind]; [|now left]; right;
+    destruct (unify_inv _ _ _ _ _ Ux Uy Hu) as (bx & by_ & Hbx & Hby & Hag & Hm & Hrd);
+    rewrite binds_var in Hbx; inversion Hbx; subst bx; clear Hbx;
+    apply binds_a_bs_b in Hby as (a & s & b & -> & Hs & ->);
+    destruct (Hm v_b x b eq_refl eq_refl) as (_ & _ & Hmat);
+    step;
+    destruct (cat_eqb a b) eqn:Eab;
+    [ done_some; apply cat_eqb_eq in Eab; apply (J_ba _ _ _ a s b); try assumption; try reflexivity; [lab | left; now split]
+    | destruct (Hrd v_a a eq_refl) as (c & Hc & Hi); rewrite Hc; cbn [bind]; done_some;
+      apply (J_ba _ _ _ a s b); try assumption; try reflexivity; [lab | right; split; [|exact Hi]; intros ->; now rewrite cat_eqb_refl in Eab] ].
 Qed.
 
 Lemma fc_good : good forward_composition.
@@ -60,7 +60,7 @@ Proof.
   apply binds_a_sl_b in Hbx as (a & s1 & b & -> & Hs1 & ->).
   apply binds_b_sl_c in Hby as (b' & s2 & c & -> & Hs2 & ->).
   destruct (Hm v_b b b' eq_refl eq_refl) as (_ & _ & Hmat).
-  rewrite is_modifier_char. cbn [bind modifierb].
+  step.
   destruct (cat_eqb a b) eqn:Eab.
   - done_some. apply cat_eqb_eq in Eab. apply (J_fc _ _ _ a s1 b b' s2 c); try assumption; try reflexivity. lab. left. now split.
   - destruct (Hrd v_a a eq_refl) as (a' & Ha & Hia). destruct (Hrd v_c c eq_refl) as (c' & Hc & Hic).
@@ -86,7 +86,7 @@ Proof.
   change [[78]; [78; 80]] with (map show [c_N; c_NP]).
   destruct (text_in (show b2) (map show [c_N; c_NP])) eqn:EN; [now left|]. right.
   pose proof (not_bare_of_text _ _ _ _ Hib EN) as Hnb.
-  rewrite is_modifier_char. cbn [bind modifierb].
+  step.
   destruct (cat_eqb a b') eqn:Eab.
   - done_some. apply cat_eqb_eq in Eab. apply (J_bx _ _ _ b s1 c a s2 b'); try assumption; try reflexivity. lab. left. now split.
   - destruct (Hrd v_a a eq_refl) as (a' & Ha & Hia). destruct (Hrd v_c c eq_refl) as (c' & Hc & Hic).
@@ -103,7 +103,7 @@ Proof.
   apply binds_a_sl_b in Hbx as (a & s1 & b & -> & Hs1 & ->).
   apply binds_bc_d in Hby as (b' & s2 & c & s3 & d & -> & Hs2 & ->).
   destruct (Hm v_b b b' eq_refl eq_refl) as (_ & _ & Hmat).
-  rewrite is_modifier_char. cbn [bind modifierb].
+  step.
   destruct (cat_eqb a b) eqn:Eab.
   - done_some. apply cat_eqb_eq in Eab. apply (J_gfc _ _ _ a s1 b b' s2 c s3 d); try assumption; try reflexivity. lab. left. now split.
   - destruct (Hrd v_a a eq_refl) as (a' & Ha & Hia). destruct (Hrd v_c c eq_refl) as (c' & Hc & Hic).
@@ -125,7 +125,7 @@ Proof.
   change [[78]; [78; 80]] with (map show [c_N; c_NP]).
   destruct (text_in (show b2) (map show [c_N; c_NP])) eqn:EN; [now left|]. right.
   pose proof (not_bare_of_text _ _ _ _ Hib EN) as Hnb.
-  rewrite is_modifier_char. cbn [bind modifierb].
+  step.
   destruct (cat_eqb a b') eqn:Eab.
   - done_some. apply cat_eqb_eq in Eab. apply (J_gbx _ _ _ b s1 c s3 d a s2 b'); try assumption; try reflexivity. lab. left. now split.
   - destruct (Hrd v_a a eq_refl) as (a' & Ha & Hia). destruct (Hrd v_c c eq_refl) as (c' & Hc & Hic).
@@ -135,68 +135,104 @@ Proof.
     exists a', c', d'. auto.
 Qed.
 
+(* ---------- the rules without unification: what each generated decision tree computes (proved by running it on every
+   constructor shape of the inputs - nothing here depends on how the tree is arranged) ---------- *)
+Definition mk (c : cat) (l sy : text) : cres := {| rcat := c; op_string := l; op_symbol := sy; head_is_left := true |}.
+Definition when (b : bool) (r : cres) : res (option cres) := Ok_ (if b then Some r else None).
+
+Ltac evald := unfold when, mk, n_LRB, n_RRB, n_LQU, n_RQU; crunch.
+
+Lemma conjunction_eval x y : wf puncts y ->
+  conjunction x y = when (negb (punctb y) && negb (type_raisedb y) && text_in (show x) (map show [c_comma; c_semi; c_conj])) (mk (Fun y bs y) l_conj y_conj).
+Proof.
+  intros W. unfold conjunction.
+  destruct y as [[|c b] f | l s [b f | rl s' rr]]; [cbn [wf] in W; destruct W as [[W _] _]; congruence | | |];
+    cbn [punctb type_raisedb]; step; try fold (letterb c); evald.
+Qed.
+Lemma conjunction2_eval x y :
+  conjunction2 x y = when (eq_str x (show c_conj) && eq_str y (show c_NP_NP)) (mk y l_conj y_conj).
+Proof. unfold conjunction2. evald. Qed.
+Lemma rp1_eval x y : wf puncts x -> remove_punctuation1 x y = when (punctb x) (mk y l_lp y_lp).
+Proof.
+  intros W. unfold remove_punctuation1.
+  destruct x as [[|c b] f | l s r]; [cbn [wf] in W; destruct W as [[W _] _]; congruence | |];
+    cbn [punctb]; step; try fold (letterb c); evald.
+Qed.
+Lemma rp2_eval x y : wf puncts y -> remove_punctuation2 x y = when (punctb y) (mk x l_rp y_rp).
+Proof.
+  intros W. unfold remove_punctuation2.
+  destruct y as [[|c b] f | l s r]; [cbn [wf] in W; destruct W as [[W _] _]; congruence | |];
+    cbn [punctb]; step; try fold (letterb c); evald.
+Qed.
+Lemma rpl_eval x y : remove_punctuation_left x y = when (text_in (show x) (map show [c_LQU; c_LRB])) (mk (Fun y bs y) l_lp y_lp).
+Proof. unfold remove_punctuation_left. evald. Qed.
+Lemma comma_vp_eval x y :
+  comma_vp_to_adv x y = when (eq_str x (show c_comma) && text_in (show y) (map show [c_Sng_NP; c_Spss_NP])) (mk c_VP_bs_VP l_lp y_star).
+Proof. unfold comma_vp_to_adv. evald. Qed.
+Lemma paren_eval x y :
+  parenthetical_direct_speech x y = when (eq_str x (show c_comma) && eq_str y (show c_Sdcl_Sdcl)) (mk c_VP_sl_VP l_lp y_star).
+Proof. unfold parenthetical_direct_speech. evald. Qed.
+
+(* a rule that fires exactly when a test holds is good when the test implies its schema *)
+Lemma when_good (c : combinator) (t : cat -> cat -> bool) (r : cat -> cat -> cres) :
+  (forall x y, wf puncts x -> wf puncts y -> c x y = when (t x y) (r x y)) ->
+  (forall x y, wf puncts x -> wf puncts y -> t x y = true -> Justified_en (r x y) x y /\ head_is_left (r x y) = true) -> good c.
+Proof.
+  intros He Hj x y Wx Wy _ _. rewrite (He x y Wx Wy). unfold when. destruct (t x y) eqn:E; [right | now left].
+  eexists. split; [reflexivity|]. now apply Hj.
+Qed.
+
 Lemma conj_good : good conjunction.
 Proof.
-  intros x y Wx Wy Ux Uy. unfold conjunction. cbn [bind].
-  rewrite (is_punct_wf y Wy), is_type_raised_char. cbn [bind].
-  change [[44]; [59]; [99; 111; 110; 106]] with (map show [c_comma; c_semi; c_conj]).
-  destruct (punctb y) eqn:Ep; cbn [negb bind]; [now left|].
-  destruct (type_raisedb y) eqn:Et; cbn [negb bind]; [now left|].
-  destruct (text_in (show x) (map show [c_comma; c_semi; c_conj])) eqn:Ex; cbn [negb bind]; [|now left].
-  right. done_some. apply J_conj; try reflexivity.
+  apply (when_good _ _ _ (fun x y _ Wy => conjunction_eval x y Wy)). intros x y Wx Wy E.
+  apply andb_true_iff in E as [E Ex]. apply andb_true_iff in E as [Ep Et]. apply negb_true_iff in Ep, Et.
+  split; [|reflexivity]. apply J_conj; try reflexivity.
   - apply text_in_show; [assumption | reflexivity | assumption].
   - intros H. apply punctb_ok in H. congruence.
   - intros H. apply type_raisedb_ok in H. congruence.
   - lab.
 Qed.
 
-Ltac case_and E := rewrite if_and; cbn [bind]; match goal with |- context [if ?c then _ else _] => destruct c eqn:E end.
-
 Lemma conj2_good : good conjunction2.
 Proof.
-  intros x y Wx Wy Ux Uy. unfold conjunction2. cbn [bind]. case_and E; [|now left].
-  right. apply andb_true_iff in E as [E1 E2].
+  apply (when_good _ _ _ (fun x y _ _ => conjunction2_eval x y)). intros x y Wx Wy E. apply andb_true_iff in E as [E1 E2].
   apply (eq_str_wf x c_conj Wx eq_refl) in E1. apply (eq_str_wf y c_NP_NP Wy eq_refl) in E2.
-  done_some. apply J_conj_NP; try assumption; try reflexivity. lab.
+  split; [|reflexivity]. apply J_conj_NP; try assumption; try reflexivity. lab.
 Qed.
 
 Lemma rp1_good : good remove_punctuation1.
 Proof.
-  intros x y Wx Wy Ux Uy. unfold remove_punctuation1. cbn [bind]. rewrite (is_punct_wf x Wx). cbn [bind].
-  destruct (punctb x) eqn:Ep; [|now left]. right. done_some. apply J_lp; try reflexivity. now apply punctb_ok. lab.
+  apply (when_good _ _ _ (fun x y Wx _ => rp1_eval x y Wx)). intros x y Wx Wy E.
+  split; [|reflexivity]. apply J_lp; try reflexivity. now apply punctb_ok. lab.
 Qed.
 
 Lemma rp2_good : good remove_punctuation2.
 Proof.
-  intros x y Wx Wy Ux Uy. unfold remove_punctuation2. cbn [bind]. rewrite (is_punct_wf y Wy). cbn [bind].
-  destruct (punctb y) eqn:Ep; [|now left]. right. done_some. apply J_rp; try reflexivity. now apply punctb_ok. lab.
+  apply (when_good _ _ _ (fun x y _ Wy => rp2_eval x y Wy)). intros x y Wx Wy E.
+  split; [|reflexivity]. apply J_rp; try reflexivity. now apply punctb_ok. lab.
 Qed.
 
 Lemma rpl_good : good remove_punctuation_left.
 Proof.
-  intros x y Wx Wy Ux Uy. unfold remove_punctuation_left. cbn [bind].
-  change [[76; 81; 85]; [76; 82; 66]] with (map show [c_LQU; c_LRB]).
-  destruct (text_in (show x) (map show [c_LQU; c_LRB])) eqn:Ex; [|now left].
-  right. done_some. apply J_lp_open; try reflexivity.
+  apply (when_good _ _ _ (fun x y _ _ => rpl_eval x y)). intros x y Wx Wy E.
+  split; [|reflexivity]. apply J_lp_open; try reflexivity.
   - apply text_in_show; [assumption | reflexivity | assumption].
   - lab.
 Qed.
 
 Lemma comma_vp_good : good comma_vp_to_adv.
 Proof.
-  intros x y Wx Wy Ux Uy. unfold comma_vp_to_adv. cbn [bind]. case_and E; [|now left].
-  right. apply andb_true_iff in E as [E1 E2].
+  apply (when_good _ _ _ (fun x y _ _ => comma_vp_eval x y)). intros x y Wx Wy E. apply andb_true_iff in E as [E1 E2].
   apply (eq_str_wf x c_comma Wx eq_refl) in E1.
   apply (text_in_show y [c_Sng_NP; c_Spss_NP] Wy eq_refl) in E2.
-  done_some. apply J_comma_vp; try assumption; try reflexivity. lab.
+  split; [|reflexivity]. apply J_comma_vp; try assumption; try reflexivity. lab.
 Qed.
 
 Lemma paren_good : good parenthetical_direct_speech.
 Proof.
-  intros x y Wx Wy Ux Uy. unfold parenthetical_direct_speech. cbn [bind]. case_and E; [|now left].
-  right. apply andb_true_iff in E as [E1 E2].
+  apply (when_good _ _ _ (fun x y _ _ => paren_eval x y)). intros x y Wx Wy E. apply andb_true_iff in E as [E1 E2].
   apply (eq_str_wf x c_comma Wx eq_refl) in E1. apply (eq_str_wf y c_Sdcl_Sdcl Wy eq_refl) in E2.
-  done_some. apply J_comma_ds; try assumption; try reflexivity. lab.
+  split; [|reflexivity]. apply J_comma_ds; try assumption; try reflexivity. lab.
 Qed.
 
 Lemma all_good c : In c combinators -> good c.
@@ -276,7 +312,7 @@ Lemma fa_complete a s b : fwd s ->
   exists r, forward_application (Fun a s b) b = Ok_ (Some r) /\ rcat r = a /\ labelled r l_fa y_fa.
 Proof.
   intros Hs. destruct (unify_ident lit_0 lit_1 (Fun a s b) b _ _ (binds_a_sl_b_intro a s b Hs) (binds_var b)) as (st & Hu & Hrd); [va | hid |].
-  unfold forward_application. cbn [bind]. rewrite Hu. cbn [bind]. rewrite is_modifier_char. cbn [bind modifierb].
+  unfold forward_application. cbn [bind]. rewrite Hu. cbn [bind]. step.
   destruct (cat_eqb a b) eqn:E.
   - some_r. cbn. apply cat_eqb_eq in E. congruence.
   - rewrite (Hrd v_a a eq_refl). cbn [bind]. some_r. reflexivity.
@@ -286,12 +322,12 @@ Lemma ba_complete a s b : bwd s -> eq_str b (show c_S_dcl) && eq_str (Fun a s b)
   exists r, backward_application b (Fun a s b) = Ok_ (Some r) /\ rcat r = a /\ labelled r l_ba y_ba.
 Proof.
   intros Hs Hsp. destruct (unify_ident lit_1 lit_2 b (Fun a s b) _ _ (binds_var b) (binds_a_bs_b_intro a s b Hs)) as (st & Hu & Hrd); [va | hid |].
-  unfold backward_application. cbn [bind]. rewrite if_and. cbn [bind].
+  unfold backward_application.
   change [83;91;100;99;108;93] with (show c_S_dcl). change [83;91;101;109;93;92;83;91;101;109;93] with (show c_Sem_Sem).
-  rewrite Hsp. rewrite Hu. cbn [bind]. rewrite is_modifier_char. cbn [bind modifierb].
-  destruct (cat_eqb a b) eqn:Eab.
-  - some_r. cbn. apply cat_eqb_eq in Eab. congruence.
-  - rewrite (Hrd v_a a eq_refl). cbn [bind]. some_r. reflexivity.
+  destruct (eq_str b (show c_S_dcl)); [destruct (eq_str (Fun a s b) (show c_Sem_Sem)); [discriminate Hsp|]|].
+  all: rewrite Hu; cbn [bind]; step; destruct (cat_eqb a b) eqn:Eab;
+    [ some_r; cbn; apply cat_eqb_eq in Eab; congruence
+    | rewrite (Hrd v_a a eq_refl); cbn [bind]; some_r; reflexivity ].
 Qed.
 
 Lemma fc_complete a s1 b s2 c : fwd s1 -> fwd s2 ->
@@ -300,7 +336,7 @@ Lemma fc_complete a s1 b s2 c : fwd s1 -> fwd s2 ->
 Proof.
   intros Hs1 Hs2.
   destruct (unify_ident lit_0 lit_3 (Fun a s1 b) (Fun b s2 c) _ _ (binds_a_sl_b_intro a s1 b Hs1) (binds_b_sl_c_intro b s2 c Hs2)) as (st & Hu & Hrd); [va | hid |].
-  unfold forward_composition. cbn [bind]. rewrite Hu. cbn [bind]. rewrite is_modifier_char. cbn [bind modifierb].
+  unfold forward_composition. cbn [bind]. rewrite Hu. cbn [bind]. step.
   destruct (cat_eqb a b) eqn:E.
   - some_r. reflexivity.
   - rewrite (Hrd v_a a eq_refl). cbn [bind]. rewrite (Hrd v_c c eq_refl). cbn [bind]. some_r. reflexivity.
@@ -314,7 +350,7 @@ Proof.
   destruct (unify_ident lit_3 lit_2 (Fun b s1 c) (Fun a s2 b) _ _ (binds_b_sl_c_intro b s1 c Hs1) (binds_a_bs_b_intro a s2 b Hs2)) as (st & Hu & Hrd); [va | hid |].
   unfold backward_composition. cbn [bind]. rewrite Hu. cbn [bind]. rewrite (Hrd v_b b eq_refl). cbn [bind].
   change [[78]; [78; 80]] with (map show [c_N; c_NP]). rewrite HN.
-  rewrite is_modifier_char. cbn [bind modifierb].
+  step.
   destruct (cat_eqb a b) eqn:E.
   - some_r. reflexivity.
   - rewrite (Hrd v_a a eq_refl). cbn [bind]. rewrite (Hrd v_c c eq_refl). cbn [bind]. some_r. reflexivity.
@@ -326,7 +362,7 @@ Lemma gfc_complete a s1 b s2 c s3 d : fwd s1 -> fwd s2 ->
 Proof.
   intros Hs1 Hs2.
   destruct (unify_ident lit_0 lit_4 (Fun a s1 b) (Fun (Fun b s2 c) s3 d) _ _ (binds_a_sl_b_intro a s1 b Hs1) (binds_bc_d_intro b s2 c s3 d Hs2)) as (st & Hu & Hrd); [va | hid |].
-  unfold generalized_forward_composition. cbn [bind]. rewrite Hu. cbn [bind]. rewrite is_modifier_char. cbn [bind modifierb].
+  unfold generalized_forward_composition. cbn [bind]. rewrite Hu. cbn [bind]. step.
   destruct (cat_eqb a b) eqn:E.
   - some_r. reflexivity.
   - rewrite (Hrd v_a a eq_refl). cbn [bind]. rewrite (Hrd v_c c eq_refl). cbn [bind]. rewrite (Hrd v_d d eq_refl). cbn [bind functor_of].
@@ -341,7 +377,7 @@ Proof.
   destruct (unify_ident lit_4 lit_2 (Fun (Fun b s1 c) s3 d) (Fun a s2 b) _ _ (binds_bc_d_intro b s1 c s3 d Hs1) (binds_a_bs_b_intro a s2 b Hs2)) as (st & Hu & Hrd); [va | hid |].
   unfold generalized_backward_composition. cbn [bind]. rewrite Hu. cbn [bind]. rewrite (Hrd v_b b eq_refl). cbn [bind].
   change [[78]; [78; 80]] with (map show [c_N; c_NP]). rewrite HN.
-  rewrite is_modifier_char. cbn [bind modifierb].
+  step.
   destruct (cat_eqb a b) eqn:E.
   - some_r. reflexivity.
   - rewrite (Hrd v_a a eq_refl). cbn [bind]. rewrite (Hrd v_c c eq_refl). cbn [bind]. rewrite (Hrd v_d d eq_refl). cbn [bind functor_of].
@@ -351,24 +387,21 @@ Qed.
 Lemma conj_complete x y : wf puncts y -> In x [c_comma; c_semi; c_conj] -> ~ punct_cat y -> ~ type_raised y ->
   exists r, conjunction x y = Ok_ (Some r) /\ rcat r = Fun y bs y /\ labelled r l_conj y_conj.
 Proof.
-  intros Wy Hx Hp Ht. unfold conjunction. cbn [bind]. rewrite (is_punct_wf y Wy), is_type_raised_char. cbn [bind].
+  intros Wy Hx Hp Ht. rewrite (conjunction_eval x y Wy).
   destruct (punctb y) eqn:Ep; [exfalso; apply Hp; now apply punctb_ok|].
-  destruct (type_raisedb y) eqn:Et; [exfalso; apply Ht; now apply type_raisedb_ok|]. cbn [negb bind].
-  change [[44]; [59]; [99; 111; 110; 106]] with (map show [c_comma; c_semi; c_conj]).
-  rewrite (text_in_show_intro x _ Hx). cbn [negb bind]. some_r. reflexivity.
+  destruct (type_raisedb y) eqn:Et; [exfalso; apply Ht; now apply type_raisedb_ok|].
+  rewrite (text_in_show_intro x _ Hx). some_r. reflexivity.
 Qed.
 
 Lemma lp_complete x y : wf puncts x -> punct_cat x ->
   exists r, remove_punctuation1 x y = Ok_ (Some r) /\ rcat r = y /\ labelled r l_lp y_lp.
 Proof.
-  intros Wx Hp. unfold remove_punctuation1. cbn [bind]. rewrite (is_punct_wf x Wx). apply punctb_ok in Hp. rewrite Hp. cbn [bind].
-  some_r. reflexivity.
+  intros Wx Hp. rewrite (rp1_eval x y Wx). apply punctb_ok in Hp. rewrite Hp. some_r. reflexivity.
 Qed.
 Lemma rp_complete x y : wf puncts y -> punct_cat y ->
   exists r, remove_punctuation2 x y = Ok_ (Some r) /\ rcat r = x /\ labelled r l_rp y_rp.
 Proof.
-  intros Wy Hp. unfold remove_punctuation2. cbn [bind]. rewrite (is_punct_wf y Wy). apply punctb_ok in Hp. rewrite Hp. cbn [bind].
-  some_r. reflexivity.
+  intros Wy Hp. rewrite (rp2_eval x y Wy). apply punctb_ok in Hp. rewrite Hp. some_r. reflexivity.
 Qed.
 
 (* ---------- lifted to apply_binary_rules (which erases 'nb' first) ---------- *)
